@@ -189,6 +189,67 @@ def maskedLogit : Rat := -100000000
 def pgMask (logits : List Rat) (m : List Bool) : List Rat :=
   List.zipWith (fun l b => if b then l else maskedLogit) logits m
 
+/-! ### multi-agent plumbing: which mask / env-defined action reaches which agent and environment row
+
+  `infos` is an insertion-ordered association list keyed by agent id (a Python dict: keys distinct, the order
+  is the environment's, not necessarily `agent_ids`').  The code-shaped translation of
+  `extract_action_masks` / `extract_agent_masks` / `process_infos` / the statements of `get_action` around
+  the per-agent loop / `disassemble_homogeneous_outputs` is `Gen/MaPlumbGen.lean`; `Proofs/MaPlumbGenEq.lean`
+  proves it equal to the functions below. -/
+
+/-- `d[k]` / `d.get(k)` of an insertion-ordered dict -/
+def dlookup {V : Type} (d : List (String × V)) (k : String) : Option V :=
+  (d.find? (fun p => p.1 == k)).map (fun p => p.2)
+
+/-- `key_in_nested_dict(infos, target)` as `extract_agent_masks` uses it (the presence test for
+    "env_defined_actions"); an info is abstracted to `some keys` (a dict) or `none` (not a dict).
+    Repaired code (commit 1022803): some top-level key is the target, or SOME dict-valued info holds it. -/
+def keyInNested (infos : List (String × Option (List String))) (target : String) : Bool :=
+  infos.any (fun p => p.1 == target || (match p.2 with | some ks => ks.contains target | none => false))
+
+/-- the same helper AS FOUND (finding C14-env-defined-actions-infos-order): it returned the answer of the
+    FIRST dict-valued entry it met, so the result depended on the order of `infos` -/
+def keyInNestedAsFound : List (String × Option (List String)) → String → Bool
+  | [], _ => false
+  | (k, v) :: rest, t =>
+    if k == t then true
+    else match v with
+      | some ks => ks.contains t
+      | none => keyInNestedAsFound rest t
+
+/-- `MultiAgentRLAlgorithm.extract_action_masks`: every known agent's own entry (`none`: no mask, or the
+    info is not a dict), in the order of `infos`; keys that are not agent ids are dropped -/
+def extractMasks {M : Type} (ids : List String) (infos : List (String × Option M)) : List (String × Option M) :=
+  infos.filter (fun p => ids.contains p.1)
+
+/-- the mask that reaches agent `a` (`none`: all actions allowed) -/
+def ownMask {M : Type} (ids : List String) (infos : List (String × Option M)) (a : String) : Option M :=
+  (dlookup (extractMasks ids infos) a).join
+
+/-- `extract_agent_masks`, one normalised 2-D entry: `agent_mask = ¬ isnan(env_defined_actions)` -/
+def agentMask {α : Type} (env : List (List (Option α))) : List (List Bool) :=
+  env.map (fun r => r.map (fun e => e.isSome))
+
+/-- the statements after the per-agent loop, one agent, a 2-D action array (rows = environment rows):
+    `action[agent_mask] = env_defined_actions[agent_mask]` -/
+def overrideRows {α : Type} (pol : List (List α)) (env : List (List (Option α))) : List (List α) :=
+  List.zipWith (fun xr er => List.zipWith (fun x e => e.getD x) xr er) pol env
+
+/-- 1-D form (MADDPG's squeezed discrete actions) -/
+def overrideRow {α : Type} (pol : List α) (env : List (Option α)) : List α :=
+  List.zipWith (fun x e => e.getD x) pol env
+
+/-- `np.reshape(x, (n, e, -1))[i]`: block `i` of `n` equal blocks, as `e` rows -/
+def chunkN {β : Type} (k : Nat) : Nat → List β → List (List β)
+  | 0, _ => []
+  | n + 1, l => l.take k :: chunkN k n (l.drop k)
+
+/-- `disassemble_homogeneous_outputs` for one group of `n` agents and `e` environment rows: the group's
+    batched output (agent-major, `w` numbers per row) cut into each agent's own `e` rows -/
+def disassembleGroup {β : Type} (n e : Nat) (x : List β) : List (List (List β)) :=
+  let w := x.length / (n * e)
+  (chunkN (e * w) n x).map (fun blk => chunkN w e blk)
+
 end Action
 
 /-! ### line protocol -/
